@@ -187,6 +187,12 @@ fn real_view(v: &V) -> View {
                 let flag = sycamore_reactive::create_signal(false);
                 sycamore_reactive::on_cleanup(move || flag.set(true));
                 View::from_dynamic(move || if flag.get() { "torn-down".to_string() } else { s.clone() })
+            } else if s.len() % 4 == 1 {
+                // the text is published by a write made after the dynamic part subscribed (needs a propagated update)
+                let cell = sycamore_reactive::create_signal(String::new());
+                let v = View::from_dynamic(move || cell.get_clone());
+                cell.set(s.clone());
+                v
             } else {
                 View::from_dynamic(move || s.clone())
             }
@@ -543,7 +549,13 @@ pub fn run(args: &Args) {
     sink.note("corpus_cases", lines.len());
     if !only { lines.extend(generate(args)); }
     let mut st = State { seen: HashMap::new(), base_count: None };
-    for l in &lines {
+    for (i, l) in lines.iter().enumerate() {
+        // C12 "regardless of what was rendered before on the thread": now and then a render that dies inside a batch
+        // (the panic is caught, as a server does per request) comes before the render under test
+        if i % 41 == 7 {
+            let _ = catch(|| render_to_string(|| { sycamore_reactive::batch(|| panic!("verif: a render that panics inside a batch")); View::new() }));
+            sink.count("preceded-by-panic-in-batch");
+        }
         let (obs, verdict, nt) = exec(l, &mut st);
         sink.count(&format!("op:{}", l.split(' ').nth(1).unwrap_or("?")));
         sink.count(if obs.starts_with("ok") { "result:ok" } else { "result:panic" });
